@@ -4,7 +4,7 @@ from dataclasses import dataclass, field, replace
 
 O_C01, O_C02, O_C03, O_C04, O_C05, O_C19 = 1, 2, 4, 8, 16, 32
 S1 = [("std::hash::RandomState::new", "env::random_state_stub")]
-S2 = [("ring::digest::digest", "env::digest_stub::digest"), ("<ring::digest::Digest as core::convert::AsRef<[u8]>>::as_ref", "env::digest_stub::as_ref_stub")]
+S2 = [("ring::digest::digest", "env::digest_stub::digest")]
 
 SAN_NAMES = ["rfc822", "dns", "uri", "ipv4", "ipv6", "other"]
 EKU_NAMES = ["any", "server", "client", "code", "email", "time", "ocsp", "Other"]
